@@ -211,7 +211,8 @@ fn test_conversions(c: &ConvCase, cx: &mut Cx) -> CaseResult {
         Err(e) => ensure!(has_big || c.span.sign() < 0, "span-to-std-rejects", "std Duration::try_from({span:?}) = Err({e})"),
     }
     // duration -> span: seconds and smaller only; fails exactly on the seconds limit
-    let nanos = if c.secs < 0 { -c.nanos.abs() } else { c.nanos.abs() };
+    // negative durations with zero whole seconds are generated too
+    let nanos = if c.secs < 0 || (c.secs == 0 && c.nanos % 2 == 1) { -c.nanos.abs() } else { c.nanos.abs() };
     let d = SignedDuration::new(c.secs, nanos);
     let ok = c.secs.unsigned_abs() <= SPAN_LIMITS[6] as u64;
     cx.nt_if(!ok);
@@ -225,7 +226,7 @@ fn test_conversions(c: &ConvCase, cx: &mut Cx) -> CaseResult {
         }
         Err(e) => ensure!(!ok, "duration-to-span-rejects", "Span::try_from({d:?}) = Err({e})"),
     }
-    if c.secs >= 0 {
+    if d.as_nanos() >= 0 {
         let u = StdDuration::new(c.secs as u64, c.nanos.unsigned_abs());
         match Span::try_from(u) {
             Ok(s) => ensure!(ok && SpanSpec::from_span(&s).time_ns() == u.as_nanos() as i128, "std-to-span-wrong", "Span::try_from({u:?}) = {s:?}"),
@@ -335,6 +336,10 @@ fn test_sd(c: &SdCase, cx: &mut Cx) -> CaseResult {
         ensure!(ab.as_nanos() == an.abs(), "abs-wrong", "{ctx}: abs = {ab:?}");
     }
     ensure!(a.unsigned_abs().as_nanos() as i128 == an.abs(), "unsigned_abs-wrong", "{ctx}: unsigned_abs = {:?}", a.unsigned_abs());
+    match StdDuration::try_from(a) {
+        Ok(u) => ensure!(an >= 0 && u.as_nanos() as i128 == an, "signed-to-std-wrong", "{ctx}: std Duration::try_from(a) = {u:?}"),
+        Err(_) => ensure!(an < 0, "signed-to-std-rejects", "{ctx}: std Duration::try_from(a) failed for a non-negative duration"),
+    }
     // unit constructors
     let s = c.a.0;
     ensure!(SignedDuration::from_secs(s).as_nanos() == s as i128 * NS_PER_SEC, "from_secs", "from_secs({s})");
